@@ -26,7 +26,7 @@ NOT_DECIDED = ["conservation sum_i R_i == integral of the response as an arithme
                "NaN handling inside integrate beyond NaN->0; searchsorted tie side at exact equality"]
 ASSUMPTIONS = ["one generic bin / SED / filter stands for every iteration of its loop", "np.searchsorted returns the insertion index on an increasing grid"]
 TRUSTED = ["python ast", "sedlint E4/E5"]
-MIN = {'ALG-13': 8, 'CFG-11a': 2, 'CFG-11b': 8, 'ALG-14': 6}
+MIN = {'ALG-13': 8, 'CFG-11a': 2, 'CFG-11b': 8, 'ALG-14': 6, 'CFG-11c': 1}
 TECHNIQUE = 'static analysis: AST value numbering with finite-domain specialisation (bin position, end-point configuration) compared with the statement\'s formulas'
 
 VOCAB = {'x', 'y', 'x@+1', 'x@0', 'y@+1', 'y@0', 'xv', 'fnu', 'fresp', 'snu', 'idx:n', 'sflux', 'serr', 'cubeval', 'cubeunc', 'R', 'sname', 'cnames', 'fcw', 'xmin', 'xmax'}
@@ -397,12 +397,139 @@ def check_drivers(ctx):
         ctx.expect(bool(orders) and all(o == 'nu' for o in orders), 'ALG-14', tag + ' spectra read in increasing frequency', where_, "order='nu'", 'read with order %s' % orders, 'read-order')
 
 
+# ---------------------------------------------------------------- re-binning cache of the per-file driver
+
+LOOSE = Fraction(1, 10 ** 6)
+
+
+class _CacheHooks(Hooks):
+    """comparison helpers of numpy in the test that decides whether the re-binned filters are reused: 'equal within a tight tolerance' is taken as equal,
+    anything looser is an opaque predicate that does not imply equality"""
+    def external(self, interp, name, args, kwargs, node, mod):
+        last = name.split('.')[-1]
+        if last in ('array_equal', 'allclose', 'assert_array_equal', 'assert_allclose', 'assert_array_almost_equal_nulp', 'assert_array_max_ulp', 'array_equiv', 'isclose') and len(args) >= 2:
+            a, b = interp._as_arr(args[0]), interp._as_arr(args[1])
+            if not (isinstance(a, Arr) and isinstance(b, Arr)):
+                return Unk(last, node)
+            tight = True
+            if last in ('allclose', 'assert_allclose', 'isclose'):
+                rt = kwargs.get('rtol', args[2] if len(args) > 2 else (1e-7 if last == 'assert_allclose' else 1e-5))
+                at = kwargs.get('atol', args[3] if len(args) > 3 else (0 if last == 'assert_allclose' else 1e-8))
+                tight = all(isinstance(x, (int, float)) and x <= 1e-4 for x in (rt, at))
+            if last in ('assert_array_almost_equal_nulp', 'assert_array_max_ulp'):
+                n = kwargs.get('nulp', kwargs.get('maxulp', args[2] if len(args) > 2 else 1))
+                tight = isinstance(n, (int, float)) and n <= 10 ** 6
+            same_len = alg.eq(alg.count(a.dims[0]), alg.count(b.dims[0])) if a.dims and b.dims and a.dims[0] != b.dims[0] else Poly.const(1)
+            if a.dims and b.dims and a.dims[0] != b.dims[0]:
+                b = Arr(a.dims, alg.relabel(b.poly, b.dims[0], a.dims[0]), unit=b.unit)        # compared element by element once the lengths agree
+            d = a.poly - b.poly
+            if tight:
+                p = same_len * mk_fn('all', B(a.dims[0], alg.eq(d, 0))) if a.dims and a.dims[0] else alg.eq(d, 0)
+            else:
+                p = same_len * mk_fn('loosely_close', B(a.dims[0], d))
+            if last.startswith('assert_'):
+                return ('ASSERTS', p)
+            return Arr((), p)
+        return NotImplemented
+
+
+def check_rebin_cache(ctx):
+    """(CFG-11c) the per-file driver re-bins the filters onto each SED's own grid and keeps them for the next SED only while the grid is the same: the
+    condition under which the re-binned filters are *reused* must imply that the new grid equals the grid they were binned on, element by element"""
+    repo = ctx.repo
+    fi = ctx.fn(repo.func('convolve.convolve', '_convolve_model_dir_1'))
+    where_ = loc(fi)
+    inst = 'filters re-binned whenever the SED grid changes'
+    loops = [n for n in walk_local(fi.node) if isinstance(n, ast.For) and any((chain(c.func) or '').endswith('SED.read') for c in calls(n))]
+    rebins = [c for lp in loops for c in calls(lp) if isinstance(c.func, ast.Attribute) and c.func.attr == 'rebin']
+    if not loops or not rebins:
+        ctx.undecided('CFG-11c', inst, where_, 're-binning inside the model loop not found')
+        return
+    lp = loops[0]
+    enc = {}
+    for parent in ast.walk(lp):
+        for child in ast.iter_child_nodes(parent):
+            enc[child] = parent
+    # the construct that guards the rebin call: the nearest enclosing try handler or if
+    node, guard = rebins[0], None
+    while node in enc and node is not lp:
+        par = enc[node]
+        if isinstance(par, ast.ExceptHandler):
+            guard = ('try', enc[par], par)
+            break
+        if isinstance(par, ast.If) and node is not par.test:
+            guard = ('if', par, node in par.body or any(node is x for b_ in par.body for x in ast.walk(b_)))
+            break
+        node = par
+    if guard is None:
+        ctx.ok('CFG-11c', inst, where_, 'filters are re-binned for every SED (no cache)')
+        return
+    # names: the SED read in the loop, the cached grid (assigned in the guarded block from the SED's grid)
+    sed_names = [t.id for t, v, st in stores(lp) if isinstance(t, ast.Name) and isinstance(v, ast.Call) and (chain(v.func) or '').endswith('SED.read')]
+    guarded = guard[2].body if guard[0] == 'try' else (guard[1].body if guard[2] else guard[1].orelse)
+    cache_names = [t.id for st in guarded for t, v, st2 in stores(st) if isinstance(t, ast.Name) and sed_names and sed_names[0] in {n_.id for n_ in ast.walk(v) if isinstance(n_, ast.Name)}
+                   and not isinstance(v, (ast.ListComp, ast.Call))]
+    if not sed_names or not cache_names:
+        ctx.undecided('CFG-11c', inst, where_, 'the SED and the remembered grid were not identified (%s, %s)' % (sed_names, cache_names))
+        return
+    NUL = 'k'
+    env = {'__module__': fi.module, sed_names[0]: Obj(repo.cls('sed.sed', 'SED'), {'_nu': symarr('snu', (N,), unit=unit_atom('Hz')), '_wav': None}),
+           cache_names[0]: symarr('bnu', (N,), unit=unit_atom('Hz'))}        # lengths taken as equal: the case most favourable to reuse
+    I = Interp(repo, _CacheHooks())
+    reuse = Poly.const(1)
+    try:
+        if guard[0] == 'try':
+            for st in guard[1].body:
+                if isinstance(st, ast.Assert):
+                    v = I.expr(st.test, dict(env), fi.module)
+                    if v is True:
+                        continue
+                    if isinstance(v, Arr) and v.ndim == 0:
+                        reuse = reuse * v.poly
+                    else:
+                        raise AnalysisError('assert %s' % up(st.test))
+                elif isinstance(st, ast.Expr) and isinstance(st.value, ast.Call):
+                    v = I.expr(st.value, dict(env), fi.module)
+                    if isinstance(v, tuple) and v and v[0] == 'ASSERTS':
+                        reuse = reuse * v[1]
+                    else:
+                        raise AnalysisError('statement %s' % up(st)[:60])
+                else:
+                    raise AnalysisError('statement %s' % up(st)[:60])
+        else:
+            v = I.expr(guard[1].test, dict(env), fi.module)
+            if isinstance(v, bool):
+                v = Arr((), Poly.const(1 if v else 0))
+            if not (isinstance(v, Arr) and v.ndim == 0):
+                raise AnalysisError('test %s -> %r' % (up(guard[1].test)[:60], v))
+            reuse = alg.b_not(v.poly) if guard[2] else v.poly
+    except AnalysisError as e:
+        ctx.undecided('CFG-11c', inst, where_, 'the reuse condition was not modelled: %s' % e)
+        return
+    # does reuse imply "same length and equal element by element"?  Substitute 0 for that fact: the condition must vanish.
+    if reuse.is_zero():
+        ctx.ok('CFG-11c', inst, where_, 'filters are re-binned for every SED (the cache is never reused)')
+        return
+    equal_atoms = [a for a in reuse.atoms() if a[0] == 'fn' and a[1] == 'all']
+    killed = alg.rebuild(reuse, lambda a: Poly.const(0) if a in equal_atoms else None)
+    if equal_atoms and killed.is_zero():
+        ctx.ok('CFG-11c', inst, loc(fi, rebins[0].lineno), 'the re-binned filters are reused only when the new grid equals the remembered one element by element (within a tight tolerance)')
+        return
+    syms, fns = alg.leaf_syms(reuse)
+    if {x for x in syms if not x.startswith('unit:')} <= {'snu', 'bnu'} and fns <= {'at', 'len', 'all', 'loosely_close', 'any', 'max', 'min'}:
+        ctx.violation('CFG-11c', inst, loc(fi, rebins[0].lineno), 'the re-binned filters are reused when %s, which does not imply that the grids are equal: an SED on another grid is convolved with '
+                      'responses binned for the previous one' % alg.show(reuse, 200), 'stale-bins')
+    else:
+        ctx.undecided('CFG-11c', inst, where_, 'reuse condition %s not decided' % alg.show(reuse, 160))
+
+
 def run(ctx):
     check_integrate(ctx)
     check_normalize(ctx)
     check_rebin(ctx)
     check_integrate_subset(ctx)
     check_drivers(ctx)
+    check_rebin_cache(ctx)
     ctx.exhaustive = True
 
 
@@ -411,6 +538,9 @@ IN = 'sedfitter/utils/integrate.py'
 IP = 'sedfitter/utils/interpolate.py'
 CV = 'sedfitter/convolve/convolve.py'
 MUST_FIRE = [
+    ('re-binned filters reused when only the length and the end points of the grid agree', [(CV, "        try:\n            assert binned_nu is not None\n            np.testing.assert_array_almost_equal_nulp(s.nu.value, binned_nu.value, 100)\n        except (ValueError, AssertionError):\n", "        if binned_nu is None or len(s.nu) != len(binned_nu) or s.nu[0] != binned_nu[0] or s.nu[-1] != binned_nu[-1]:\n")]),
+    ('re-binned filters reused when the grids agree to a relative tolerance of 100', [(CV, "        try:\n            assert binned_nu is not None\n            np.testing.assert_array_almost_equal_nulp(s.nu.value, binned_nu.value, 100)\n        except (ValueError, AssertionError):\n", "        if binned_nu is None or s.nu.shape != binned_nu.shape or not np.allclose(s.nu.value, binned_nu.value, 100):\n")]),
+    ('re-binned filters reused whenever the grid has the same length', [(CV, "        try:\n            assert binned_nu is not None\n            np.testing.assert_array_almost_equal_nulp(s.nu.value, binned_nu.value, 100)\n        except (ValueError, AssertionError):\n", "        if binned_nu is None or len(s.nu) != len(binned_nu):\n")]),
     ('D20 reverted: cube flux multiplied by the unit factor and converted again on assignment', [(CV, "np.sum(sed_val * response, axis=1).to(u.mJy)", "np.sum(sed_val * response, axis=1) * sed_cube.val.unit.to(u.mJy)")]),
     ('cube error multiplied by the unit factor and converted again', [(CV, "np.sqrt(np.sum((sed_unc * response) ** 2, axis=1)).to(u.mJy)", "np.sqrt(np.sum((sed_unc * response) ** 2, axis=1)) * sed_cube.unc.unit.to(u.mJy)")]),
     ('midpoint 0.5 -> 0.25', [(FI, "nu1 = 0.5 * (nu_new_hz[i - 1] + nu_new_hz[i])", "nu1 = 0.25 * (nu_new_hz[i - 1] + nu_new_hz[i])")]),
@@ -435,6 +565,9 @@ MUST_FIRE = [
     ('response stored at the previous bin', [(FI, "f.response[i] = integrate_subset", "f.response[i - 1] = integrate_subset")]),
 ]
 MUST_SILENT = [
+    ('grid compared with np.array_equal', [(CV, "        try:\n            assert binned_nu is not None\n            np.testing.assert_array_almost_equal_nulp(s.nu.value, binned_nu.value, 100)\n        except (ValueError, AssertionError):\n", "        if binned_nu is None or not np.array_equal(s.nu.value, binned_nu.value):\n")]),
+    ('grid compared with shape and np.all(==)', [(CV, "        try:\n            assert binned_nu is not None\n            np.testing.assert_array_almost_equal_nulp(s.nu.value, binned_nu.value, 100)\n        except (ValueError, AssertionError):\n", "        if binned_nu is None or s.nu.shape != binned_nu.shape or not np.all(s.nu == binned_nu):\n")]),
+    ('filters re-binned for every SED', [(CV, "        try:\n            assert binned_nu is not None\n            np.testing.assert_array_almost_equal_nulp(s.nu.value, binned_nu.value, 100)\n        except (ValueError, AssertionError):\n", "        if True:\n")]),
     ('cube flux converted by the assignment into the mJy array', [(CV, "np.sum(sed_val * response, axis=1).to(u.mJy)", "np.sum(sed_val * response, axis=1)")]),
     ('cube flux as bare values times the factor, unit re-attached', [(CV, "np.sum(sed_val * response, axis=1).to(u.mJy)", "np.sum(sed_val.value * response, axis=1) * sed_cube.val.unit.to(u.mJy) * u.mJy")]),
     ('np.clip for the clamp', [(FI, "            nu1 = min(max(nu1, self_nu_min), self_nu_max)\n            nu2 = min(max(nu2, self_nu_min), self_nu_max)\n", "            nu1 = np.clip(nu1, self_nu_min, self_nu_max)\n            nu2 = np.clip(nu2, self_nu_min, self_nu_max)\n")]),
